@@ -3,5 +3,5 @@
 cd "$(dirname "$0")/.."
 for i in $(seq -w 1 20); do
   out=$(VERIF_SEED=${1:-} ./run.sh C$i quick 2>&1); rc=$?
-  echo "rc=$rc $(echo "$out" | grep SUMMARY | cut -c1-160) $(echo "$out" | grep -c '^VIOLATION') viol-lines $(echo "$out" | grep -c '^INCONCLUSIVE') inconcl-lines"
+  echo "rc=$rc $(echo "$out" | grep -a SUMMARY | cut -c1-160) $(echo "$out" | grep -a -c "^VIOLATION") viol-lines $(echo "$out" | grep -c '^INCONCLUSIVE') inconcl-lines"
 done
